@@ -11,11 +11,11 @@ from ..tlaparse import to_json
 INVS = ['InstalledWhenStarted', 'NoTraceUntouched', 'RestoredExactly', 'ShutdownCompletes', 'QuietAfter']
 
 
-def mc_cfg(ur=False, ab=False, ka=False, so=False, ad=False, rn=False, ch=False, lh=False, invs=INVS, calls=4,
+def mc_cfg(ur=False, ab=False, ka=False, so=False, ad=False, rn=False, ch=False, lh=False, oh=False, invs=INVS, calls=4,
            props=('StoppedAfterShutdown', 'CallerHookUntouched')):
     return dict(constants=dict(NPlugins=2, MaxCalls=calls, UnconditionalRestore=ur, AbortOnFailure=ab, KeepsActing=ka,
                                SaveOnce=so, AcceptsDuringDrain=ad, RestoreNeedsOwnThread=rn, ClobbersCallerHook=ch,
-                               LeaksHooksOnFailedStart=lh),
+                               LeaksHooksOnFailedStart=lh, SavesOwnHook=oh),
                 invariants=invs, properties=list(props), deadlock=False)
 
 
@@ -166,7 +166,8 @@ def run(c):
     r = c.mc('Lifecycle', mc_cfg(), label='2 plugins, 4 calls', dump=True,
              must_cover=['Start', 'ShutdownBegin', 'ShutdownStep', 'ShutdownMark'])
     for kw, inv in ((dict(ur=True), 'NoTraceUntouched'), (dict(ka=True), 'QuietAfter'), (dict(so=True), 'RestoredExactly'),
-                    (dict(ad=True), 'QuietAfter'), (dict(rn=True), 'RestoredExactly'), (dict(lh=True), 'RestoredExactly')):
+                    (dict(ad=True), 'QuietAfter'), (dict(rn=True), 'RestoredExactly'), (dict(lh=True), 'RestoredExactly'),
+                    (dict(oh=True), 'RestoredExactly')):
         c.mc_expect_violation('Lifecycle', mc_cfg(invs=[inv], props=(), **kw), 'deviation %s' % list(kw)[0], what=inv)
     c.mc_expect_violation('Lifecycle', mc_cfg(invs=[], ab=True), 'deviation AbortOnFailure',
                           what='StoppedAfterShutdown')
@@ -210,6 +211,17 @@ def run(c):
         key = (str(w[0][2]['preSys']), str(w[0][2]['preThr']), str(w[-1][2]['appSys']), str(w[-1][2]['appThr']))
         picked.setdefault(key, w)
     curated += list(picked.values())[:6]
+    # a life that follows a shutdown called from ANOTHER thread (the starting thread still runs the agent's function then),
+    # ended on the starting thread: the hooks found before the FIRST life are back
+    ws = core.walks_matching(r.graph, ['Start'] + short + ['Start'] + short, init_filter=lambda st: not st['noTrace'], limit=60000)
+    hit = [w for w in ws if any(x[2]['otherThread'] for x in w) and not w[-1][2]['otherThread']]
+    hit.sort(key=lambda w: max(len(x[2]['failing']) for x in w))
+    seen_pre = {}
+    for w in hit:
+        seen_pre.setdefault((str(w[0][2]['preSys']), str(w[0][2]['preThr'])), w)
+    if not seen_pre:
+        raise tlc.MachineryError('no walk with a life after a shutdown from another thread')
+    curated += list(seen_pre.values())[:4]
     import itertools
     for walk in itertools.chain(curated, core.random_walks(r.graph, rng, 40 if quick else 800, max_len=40,
                                                            cover_edges=not quick, cover_factor=3)):
